@@ -5,6 +5,7 @@ import (
 	"go/token"
 	"go/types"
 	"log"
+	"strconv"
 
 	"github.com/goghcrow/go-loader"
 	"github.com/goghcrow/go-matcher"
@@ -24,6 +25,7 @@ type yieldRewriter struct {
 	rewriteRetCache map[ast.Node]bool
 
 	symCnt int // for unique symbol
+	tmpCnt int // temporaries of split ':=' statements
 }
 
 func mkYieldRewriter(r *rewriter, pkg loader.Pkg) func(*astutil.Cursor, loader.Pkg) bool {
@@ -731,6 +733,14 @@ func (r *yieldRewriter) rewriteReturnAndForSwitchInitStmtInYieldFun(body *ast.Bl
 				c.Replace(X.Return(r.CallReturn()))
 			}
 
+		case *ast.AssignStmt:
+			// statements after a yield move into the scope of a continuation
+			// thunk; a ':=' that re-uses a variable of its block would declare a
+			// new variable there instead of assigning the existing one
+			if inYieldFunc() && n.Tok == token.DEFINE && c.Index() >= 0 {
+				r.splitMixedDefine(c, n)
+			}
+
 		case *ast.ForStmt:
 			if inYieldFunc() && isDefineStmt(n.Init) {
 				init := n.Init
@@ -756,6 +766,65 @@ func (r *yieldRewriter) rewriteReturnAndForSwitchInitStmtInYieldFun(body *ast.Bl
 		}
 		return true
 	})
+}
+
+// splitMixedDefine rewrites 'p, q := e1, e2' where p already exists in the block
+// (so the statement assigns p and declares only q) into a statement that declares
+// new variables only, followed by plain assignments:
+//
+//	ʌ1, q := e1, e2
+//	p = ʌ1
+//
+// A constant (or nil) operand is assigned directly ('p = e1'), so that it is still
+// converted to p's type.
+func (r *yieldRewriter) splitMixedDefine(c *astutil.Cursor, n *ast.AssignStmt) {
+	info := r.pkg.TypeInfo()
+	reused := func(e ast.Expr) (*ast.Ident, bool) {
+		id, ok := e.(*ast.Ident)
+		if !ok || id.Name == "_" || !id.Pos().IsValid() /* generated */ {
+			return nil, false
+		}
+		_, defined := info.Defs[id]
+		_, used := info.Uses[id]
+		return id, !defined && used
+	}
+
+	var after []ast.Stmt
+	paired := len(n.Lhs) == len(n.Rhs)
+	var lhs, rhs []ast.Expr
+	for i, l := range n.Lhs {
+		id, is := reused(l)
+		if !is {
+			lhs = append(lhs, l)
+			if paired {
+				rhs = append(rhs, n.Rhs[i])
+			}
+			continue
+		}
+		if paired {
+			if tv, ok := info.Types[n.Rhs[i]]; ok && (tv.Value != nil || tv.IsNil()) {
+				after = append(after, X.Assign(token.ASSIGN, id, n.Rhs[i]))
+				continue
+			}
+		}
+		r.tmpCnt++
+		tmp := X.Ident(cstYieldFromRangeVar + strconv.Itoa(r.tmpCnt))
+		lhs = append(lhs, tmp)
+		if paired {
+			rhs = append(rhs, n.Rhs[i])
+		}
+		after = append(after, X.Assign(token.ASSIGN, id, tmp))
+	}
+	if len(after) == 0 {
+		return
+	}
+	n.Lhs = lhs
+	if paired {
+		n.Rhs = rhs
+	}
+	for i := len(after) - 1; i >= 0; i-- {
+		c.InsertAfter(after[i])
+	}
 }
 
 //	for {
